@@ -18,6 +18,7 @@ import StamModel.Driver.Sq
 import StamModel.Driver.Vo
 import StamModel.Driver.Rg
 import StamModel.Driver.Px
+import StamModel.Driver.Rx
 /-
   Line-protocol driver: one request per line on stdin, one answer per line on stdout.
   Built as the `stamdriver` executable (core Lean only).
@@ -48,6 +49,7 @@ def step (line : String) : String :=
   | "vo" :: args => vo args
   | "rg" :: args => rg args
   | "px" :: args => px args
+  | "rx" :: args => rx args
   | "sqspec" :: args => sqspec args
   | ["reset"] => "ok"
   | _ => "bad-op"
